@@ -214,6 +214,8 @@ def run_one(mod, case, ctx):
     saved_cfg = {k: getattr(pcfg, k) for k in dir(pcfg) if not k.startswith('_') and k not in ('text_type', 'division', 'print_function', 'absolute_import')}
     saved_tmp = tempfile.tempdir
     ctx._cur_nontrivial = False
+    from petlmon import util as _util
+    twice0 = _util.TWICE[0]
     signal.alarm(CASE_WATCHDOG_S)
     try:
         with warnings.catch_warnings():
@@ -233,6 +235,8 @@ def run_one(mod, case, ctx):
         for k, v in saved_cfg.items():
             setattr(pcfg, k, v)
         tempfile.tempdir = saved_tmp
+        if _util.TWICE[0] != twice0:
+            ctx.seen('views-read-twice', _util.TWICE[0] - twice0)
     if res is None:
         return []
     if isinstance(res, dict):
